@@ -261,12 +261,33 @@ class Ctx:
                 resource.setrlimit(resource.RLIMIT_STACK, (resource.RLIM_INFINITY, resource.RLIM_INFINITY))
             except (ValueError, OSError):
                 pass
-        p = subprocess.run([DRIVER], input=text.encode(), stdout=subprocess.PIPE, stderr=subprocess.PIPE,
-                           preexec_fn=big_stack)
-        if p.returncode != 0:
-            self.broken.append({"kind": "correspondence", "what": "modeldriver crashed", "log_tail": p.stderr.decode()[-2000:]})
-            raise Abort()
-        return p.stdout.decode().splitlines()
+        lines = text.splitlines()
+        # one request per line, each answered on its own: large batches are split over several driver processes
+        nchunk = 1 if len(text) < 4_000_000 else min(12, max(1, len(lines) // 8))
+        size = (len(lines) + nchunk - 1) // nchunk if lines else 0
+        chunks = [lines[i:i + size] for i in range(0, len(lines), size)] if lines else [[]]
+
+        def one(chunk):
+            return subprocess.run([DRIVER], input=("\n".join(chunk) + "\n").encode() if chunk else b"",
+                                  stdout=subprocess.PIPE, stderr=subprocess.PIPE, preexec_fn=big_stack)
+        if len(chunks) == 1:
+            results = [one(chunks[0])]
+        else:
+            from concurrent.futures import ThreadPoolExecutor
+            with ThreadPoolExecutor(max_workers=len(chunks)) as ex:
+                results = list(ex.map(one, chunks))
+        out = []
+        for p, chunk in zip(results, chunks):
+            if p.returncode != 0:
+                self.broken.append({"kind": "correspondence", "what": "modeldriver crashed", "log_tail": p.stderr.decode()[-2000:]})
+                raise Abort()
+            ans = p.stdout.decode().splitlines()
+            if len(ans) != len(chunk):
+                self.broken.append({"kind": "correspondence", "what": f"modeldriver answered {len(ans)} of {len(chunk)} requests",
+                                    "log_tail": p.stderr.decode()[-2000:]})
+                raise Abort()
+            out += ans
+        return out
 
     # ---------------------------------------------------------------- verdicts
     def write_replay(self, obj, tag):
